@@ -639,6 +639,15 @@ func (t *handshakeTransport) Close() error {
 	// and close t.startKex, which will shut down kexLoop if running.
 	err := t.conn.Close()
 
+	// The readLoop goroutine may be blocked handing a packet to a reader
+	// that is gone (the caller of Close usually is that reader). Drain
+	// t.incoming so that readLoop notices the closed connection; readLoop
+	// closes t.incoming when it exits, which ends this goroutine.
+	go func() {
+		for range t.incoming {
+		}
+	}()
+
 	// Wait for the kexLoop goroutine to complete.
 	// At that point we know that the readLoop goroutine is complete too,
 	// because kexLoop itself waits for readLoop to close the startKex channel.
